@@ -197,6 +197,11 @@ func (u *unpacker) read(sz uint64, x interface{}) bool {
 }
 
 func (u *unpacker) readStr(n int) (ok bool) {
+	if n < 0 || n > len(u.pack)-u.j {
+		// The announced length is not available (do not allocate it)
+		u.err = errUnexpectedPackEnd
+		return false
+	}
 	if !u.consumeBudget(uint64(n)) {
 		return false
 	}
